@@ -22,6 +22,8 @@ def spec_of(a):
 
 
 def run(chk, repo, tier):
+    from .common import no_hidden_state
+    no_hidden_state(chk, repo, 'C16')
     chk.clause('C16-a', "charge is the sum over the wavelength axis only: einsum('ijk,i->jk')", 4)
     chk.clause('C16-b', 'every efficiency goes through qe_asarray, which forwards waveunit to Spectrum.sample', 5)
     chk.clause('C16-c', 'the three colour blocks are equal modulo colour; flatten = sum of the three', 4)
